@@ -163,6 +163,18 @@ def accounting(case):
             p.join()
         elif kind == "stdin":
             Local(ctx).run("cat", hide=True, in_stream=io.StringIO("abc\n"), pty=False)
+        elif kind == "worker_dies":
+            # a watcher error kills the stdout worker WHILE the command is still running: the call reports it and
+            # returns; the fds of the run (pipes, or the pty) must not accumulate
+            from invoke.watchers import StreamWatcher
+            from invoke.exceptions import WatcherError
+
+            class Boom(StreamWatcher):
+                def submit(self, stream):
+                    if "oops" in stream:
+                        raise WatcherError("boom")
+                    return []
+            Local(ctx).run("echo oops; sleep 0.4", hide=True, in_stream=False, pty=pty, watchers=[Boom()])
         elif kind == "nostart":
             try:
                 Local(ctx).run("true", hide=True, in_stream=False, shell="/nonexistent/shell", pty=False)
@@ -184,6 +196,14 @@ def accounting(case):
         time.sleep(0.01)
     gc.collect()
     gc.collect()
+    if kind == "worker_dies":
+        time.sleep(0.6)  # the surviving commands end; whoever is still to be reaped is not this clause's business
+        try:
+            while os.waitpid(-1, os.WNOHANG)[0]:
+                pass
+        except ChildProcessError:
+            pass
+        gc.collect()
     f1, t1, z = fds(), threading.active_count(), zombies()
     timers = [th for th in threading.enumerate() if isinstance(th, threading.Timer) and th.is_alive()]
     info = {"fds": (f0, f1), "threads": (t0, t1), "zombies": z, "timers": len(timers), "ms_per_run": round(1000 * dt / n, 1)}
@@ -423,8 +443,8 @@ def run(ctx):
     n = 60 if (ctx.thorough or ctx.escalated) else 12
     acct = {}
     for pty in (False, True):
-        for kind in ("exit0", "exit3", "raise3", "timeout", "output", "async", "async_fail", "async_timeout") + (("stdin", "nostart") if not pty else ()):
-            c = {"acct": kind, "pty": pty, "n": max(3, n // 4) if kind in ("timeout", "output", "async_timeout") else n}
+        for kind in ("exit0", "exit3", "raise3", "timeout", "output", "async", "async_fail", "async_timeout", "worker_dies") + (("stdin", "nostart") if not pty else ()):
+            c = {"acct": kind, "pty": pty, "n": max(3, n // 4) if kind in ("timeout", "output", "async_timeout", "worker_dies") else n}
             out.case(c, True)
             out.hist["acct:" + kind] += 1
             try:
